@@ -880,7 +880,24 @@ impl Monitor for C18 {
                         // exactly one comment holding the text is expected, at the requested end of the file; a file ending
                         // (starting) with a line comment may legitimately get the text merged with that comment
                         let holds = |c: &str| norm(c).contains(&norm(text));
-                        let idx = if loc == "start" { got.iter().position(|c| holds(c)) } else { got.iter().rposition(|c| holds(c)) };
+                        // the comment the rule writes: `--text` or a long comment around "\ntext\n"
+                        let exact = |c: &str| -> bool {
+                            let c = norm(c);
+                            let t = norm(text);
+                            if c == format!("--{}", t) {
+                                return true;
+                            }
+                            if let Some(rest) = c.strip_prefix("--[") {
+                                let eqs = rest.bytes().take_while(|b| *b == b'=').count();
+                                let open = eqs + 1;
+                                if rest.len() >= open * 2 + 1 && rest.as_bytes().get(eqs) == Some(&b'[') {
+                                    let body = &rest[open..rest.len() - (eqs + 2)];
+                                    return body == format!("\n{}\n", t);
+                                }
+                            }
+                            false
+                        };
+                        let idx = if loc == "start" { got.iter().position(|c| exact(c)).or_else(|| got.iter().position(|c| holds(c))) } else { got.iter().rposition(|c| exact(c)).or_else(|| got.iter().rposition(|c| holds(c))) };
                         match idx {
                             None => edits.push(Diff { class: "text-not-in-comment".into(), detail: format!("text {:?} at {}: no comment of the output contains it: {:?}", text, loc, b.comments.iter().take(6).collect::<Vec<_>>()) }),
                             Some(ix) => {
